@@ -1313,6 +1313,78 @@ fn log_level_cases(a: &Args, res: &mut RunResult, base_id: i64, w: &mut CaseWrit
         }
         mon_set_path(None);
     }
+    // L1b: two handles on one file taking turns (a second authority on the same data dir, an old store
+    // object finishing its work after a restart): deterministic.  Every append of either handle must
+    // leave the previous content as a prefix and add exactly its own frame - a handle that writes at
+    // its own offset (no O_APPEND) overwrites what the other one wrote.  Raw EventLog handles, then
+    // the same through two ContinuityStore instances on one data dir.
+    {
+        let sc = Scratch::new("c02two");
+        let path = sc.path().join("data").join("events.jsonl");
+        let a_log = EventLog::new(&path).expect("event log");
+        let b_log = EventLog::new(&path).expect("event log");
+        let mut turn = 0u64;
+        for (who, total) in [("a", 300usize), ("b", 700), ("a", 250), ("b", 9000), ("a", 200), ("a", 20_000), ("b", 220), ("b", 230), ("a", 240)] {
+            let ev = delta_event(if who == "a" { "s-a" } else { "s-b" }, turn, total, false);
+            turn += 1;
+            let before = std::fs::read(&path).unwrap_or_default();
+            let r = std::panic::catch_unwind(std::panic::AssertUnwindSafe(|| if who == "a" { a_log.append(&ev) } else { b_log.append(&ev) }));
+            let after = std::fs::read(&path).unwrap_or_default();
+            res.oracle_checks += 1;
+            res.bump("two_handles_taking_turns_appends");
+            let replay = json!({"kind": "two_handles_taking_turns", "level": "EventLog", "step": turn, "handle": who, "frame_line_bytes": total, "order": "a b a b a a b b a"});
+            if !matches!(r, Ok(Ok(()))) {
+                push_violation(res, base_id + 50, format!("two EventLog handles taking turns: append #{turn} by handle {who} failed"), "panic", replay);
+                break;
+            }
+            let mut want = serde_json::to_vec(&ev).unwrap();
+            want.push(b'\n');
+            if after.len() < before.len() || after[..before.len()] != before[..] {
+                push_violation(res, base_id + 50, format!("two EventLog handles on one file taking turns: after append #{turn} (handle {who}, {total} bytes) the previous content is no longer a prefix ({} -> {} bytes): the handle wrote at its own offset over frames of the other one", before.len(), after.len()), "log_prefix_changed", replay);
+                break;
+            } else if after[before.len()..] != want[..] {
+                push_violation(res, base_id + 50, format!("two EventLog handles taking turns: append #{turn} by handle {who} did not add exactly its frame"), "partial_frame_appended", replay);
+                break;
+            }
+        }
+        res.evaluations += 1;
+    }
+    {
+        let sc = Scratch::new("c02twostores");
+        let e1 = Env::open(sc.path());
+        let t1 = e1.store.ensure_default().unwrap_or_default();
+        let _ = e1.store.append_message(&t1, "user".into(), "harness".into(), "first instance, before the second one exists".into());
+        let e2 = Env::open(sc.path()); // second instance on the same data dir; the first stays alive
+        let t2 = e2.store.branch(&t1, Some("second".into()), None, None, "user".into(), "harness".into()).map(|r| r.0).unwrap_or_else(|_| t1.clone());
+        let mut step = 0u64;
+        for who in [2, 2, 1, 2, 1, 1, 2] {
+            step += 1;
+            let before = e1.log_bytes();
+            let r = std::panic::catch_unwind(std::panic::AssertUnwindSafe(|| {
+                if who == 1 {
+                    e1.store.append_message(&t1, "user".into(), "harness".into(), format!("late message {step} of the first instance"))
+                } else {
+                    e2.store.append_message(&t2, "user".into(), "harness".into(), format!("message {step} of the second instance, somewhat longer than the others {}", "x".repeat(200)))
+                }
+            }));
+            let after = e1.log_bytes();
+            res.oracle_checks += 1;
+            res.bump("two_stores_taking_turns_appends");
+            let replay = json!({"kind": "two_handles_taking_turns", "level": "ContinuityStore", "history": "instance 1: ensure_default, append_message; instance 2 opened on the same data dir: branch; append_message by instance 2 2 1 2 1 1 2", "step": step, "instance": who});
+            if r.is_err() {
+                push_violation(res, base_id + 51, format!("two store instances taking turns: step {step} panicked"), "panic", replay);
+                break;
+            }
+            if after.len() < before.len() || after[..before.len()] != before[..] {
+                push_violation(res, base_id + 51, format!("two ContinuityStore instances on one data dir: after append_message #{step} of instance {who} the previous content of events.jsonl is no longer a prefix ({} -> {} bytes)", before.len(), after.len()), "log_prefix_changed", replay);
+                break;
+            } else if parse_log(&after[before.len()..]).is_err() {
+                push_violation(res, base_id + 51, format!("two store instances taking turns: step {step} added bytes that are not whole frames"), "partial_frame_appended", replay);
+                break;
+            }
+        }
+        res.evaluations += 1;
+    }
     // L2: a second O_APPEND handle on the same file (a restarted authority while work of the old one
     // finishes; local CLI next to the daemon) appends small frames while big ones are being appended.
     // write(2) calls on one inode are serialised by the kernel, so this detects - independently of the
